@@ -46,7 +46,7 @@ import (
 //
 // Out-of-process leg. A package that check.Check accepts (mutated or not) is
 // given to the real `wuffs-c gen` built from the tree under test (cwd = the
-// scratch root, RLIMIT_CPU 20 s, RLIMIT_AS 4 GiB). A non-zero exit with an
+// scratch root, RLIMIT_CPU 60 s, RLIMIT_AS 4 GiB). A non-zero exit with an
 // ordinary one-line error is fine; a Go panic / fatal error / signal death /
 // CPU overrun is "toolchain-crash:wuffs-c:<class>". C text emitted with exit 0
 // is compiled the way `wuffs genlib` compiles a per-package file:
@@ -56,9 +56,9 @@ import (
 // uses). gcc rejecting it is "emitted-c-rejected:<first error class>".
 
 const (
-	c11caseCPU   = 20 * time.Second // logical budget of one text, in-process stages
+	c11caseCPU   = 60 * time.Second // logical budget of one text, in-process stages (slowest known text: 2 s idle, 7 s on a loaded box)
 	c11maxSrc    = 160 << 10        // generated texts are at most this long (largest std file: 85 KB)
-	c11childCPU  = 20               // seconds, wuffs-c / gcc
+	c11childCPU  = 60               // seconds, wuffs-c / gcc
 	c11childASKB = 4 << 20          // KiB
 )
 
@@ -710,7 +710,9 @@ func c11gccClass(stderr string, emitted []byte) string {
 				} else if tok[0] >= '0' && tok[0] <= '9' {
 					tok = "N"
 				}
-				s += " @" + tok
+				if !strings.HasPrefix(s, "size of array") { // one signature whatever is too large (local, field, argument)
+					s += " @" + tok
+				}
 			}
 		}
 		return s
@@ -799,8 +801,21 @@ func (l *c11leg2) run(c *c11case, always bool) string {
 		l.gccLeft[c.phase]--
 	}
 	c11setStage("gcc")
-	_, gerr, ghow := c11exec(filepath.Join(l.root, "gen", "c"), out, 1<<16, "gcc", "-fsyntax-only", "-w", "-DWUFFS_IMPLEMENTATION", "-x", "c", "-")
+	gccArgs := []string{"gcc", "-fsyntax-only", "-w", "-DWUFFS_IMPLEMENTATION", "-x", "c", "-"}
+	_, gerr, ghow := c11exec(filepath.Join(l.root, "gen", "c"), out, 1<<16, gccArgs...)
 	rc.Count("gcc_runs", 1)
+	if ghow != "ok" {
+		// gen/c holds a precompiled wuffs-base.c; confirm without it.
+		if st, err := os.Stat(filepath.Join(l.root, "gen", "cnopch", "wuffs-base.c")); err == nil && !st.IsDir() {
+			_, gerr2, ghow2 := c11exec(filepath.Join(l.root, "gen", "cnopch"), out, 1<<16, gccArgs...)
+			rc.Count("gcc_confirm_runs", 1)
+			if ghow2 == "ok" {
+				rc.Inconclusive(fmt.Sprintf("C11: gcc rejects an emitted file with the precompiled base header (%s) but accepts it without", vk.Trunc([]byte(gerr), 200)))
+				return "io-error"
+			}
+			gerr, ghow = gerr2, ghow2
+		}
+	}
 	switch {
 	case ghow == "ok":
 		l.gccOK[h] = true
@@ -867,7 +882,12 @@ func (e *c11env) exec(c *c11case, alwaysLeg2 bool) (reached string) {
 	c11wd.mu.Unlock()
 	defer func() {
 		c11wd.mu.Lock()
-		rc.Max("max_case_cpu_ms", int64((c11cpuNow()-c11wd.cpu0)/time.Millisecond))
+		used := c11cpuNow() - c11wd.cpu0
+		rc.Max("max_case_cpu_ms", int64(used/time.Millisecond))
+		if used > 2*time.Second {
+			rc.Count("slow_case_over_2s_cpu:"+c.kind, 1)
+			fmt.Fprintf(os.Stderr, "c11: slow case %s %d %s %s: %v (%d bytes) %s\n", c.phase, c.idx, c.kind, c.name, used, len(c.src), c.desc)
+		}
 		c11wd.active = false
 		c11wd.mu.Unlock()
 		e.nrun++
@@ -1419,9 +1439,14 @@ pri func foo.f(a: base.u32) base.u32 {
 }
 `
 
+const c11defaultSig = "pub func foo.bar!(src: base.io_reader, data: slice base.u8)"
+
 func c11fn(sig, body string) string {
 	if sig == "" {
-		sig = "pub func foo.bar!(src: base.io_reader, data: slice base.u8)"
+		sig = c11defaultSig
+	}
+	if sig == c11defaultSig {
+		body = "    var it : slice base.u8\n" + body
 	}
 	return c11prelude + "\n" + sig + " {\n" + body + "\n}\n"
 }
@@ -1441,7 +1466,7 @@ func c11wrapBlock(r *rand.Rand, body string, n int) (string, string) {
 			l := fmt.Sprintf("l%d", i)
 			return "while." + l + " true {\n", "}." + l + "\n"
 		case "iterate":
-			return "iterate (s = args.data)(length: 1, advance: 1, unroll: 1) {\n", "}\n"
+			return "iterate (it = args.data)(length: 1, advance: 1, unroll: 1) {\n", "}\n"
 		case "io_bind":
 			return "io_bind (io: args.src, data: args.data, history_position: 0) {\n", "}\n"
 		case "io_limit":
@@ -1519,6 +1544,7 @@ func c11synthDeep(r *rand.Rand) (string, string, string) {
 	sig := ""
 	if r.Intn(4) == 0 {
 		sig = "pub func foo.bar?(src: base.io_reader, data: slice base.u8)"
+		b = "    var it : slice base.u8\n" + b
 	}
 	return c11fn(sig, b), "deep-block-" + k, fmt.Sprintf("depth %d", n)
 }
@@ -1617,9 +1643,9 @@ func c11synthLit(r *rand.Rand) (string, string, string) {
 	case 5:
 		return c11fn("", "    var s : base.u64\n    s = (1 << "+c11pick(r, []string{"63", "64", "65", "255", "256", "65535", "65536", "1000000", "4294967296"})+") >> 2\n"), "lit-const-shift", ""
 	case 6:
-		return c11fn("", "    iterate (s = args.data)(length: "+num+", advance: 1, unroll: 1) {\n    }\n"), "lit-iterate-length-" + nk, ""
+		return c11fn("", "    iterate (it = args.data)(length: "+num+", advance: 1, unroll: 1) {\n    }\n"), "lit-iterate-length-" + nk, ""
 	case 7:
-		return c11fn("", "    iterate (s = args.data)(length: 256, advance: "+c11pick(r, []string{"0", "1", "255", "256", "257", "0x10", "1_0"})+", unroll: "+c11pick(r, []string{"0", "1", "256", "257", "999"})+") {\n    }\n"), "lit-iterate-counts", ""
+		return c11fn("", "    iterate (it = args.data)(length: 256, advance: "+c11pick(r, []string{"0", "1", "255", "256", "257", "0x10", "1_0"})+", unroll: "+c11pick(r, []string{"0", "1", "256", "257", "999"})+") {\n    }\n"), "lit-iterate-counts", ""
 	case 8:
 		return c11fn("", "    var s : base.u32\n    s = 1"+c11rep(" + 1", w*10)+"\n"), "wide-assoc-expr", fmt.Sprint(w * 10)
 	case 9:
@@ -1733,19 +1759,19 @@ var c11edges = []string{
 	"S:pub func foo.bar(x: base.u32[..= 10]) base.u32 {\n    return 0\n}",
 	// iterate
 	"F:    iterate ()(length: 1, advance: 1, unroll: 1) {\n    }",
-	"F:    iterate (s = args.data)(length: 1, advance: 1, unroll: 1) {\n    }",
-	"F:    iterate (s = args.data)(length: 4, advance: 2, unroll: 2) {\n    } else (length: 1, advance: 1, unroll: 1) {\n    }",
-	"F:    iterate (s = args.data, s = args.data)(length: 1, advance: 1, unroll: 1) {\n    }",
-	"F:    iterate (s = args.data)(length: 1, advance: 2, unroll: 1) {\n    }",
-	"F:    iterate (s = args.data)() {\n    }",
-	"F:    iterate (s = args.data)(length: 1, advance: 1, unroll: 1)",
+	"F:    iterate (it = args.data)(length: 1, advance: 1, unroll: 1) {\n    }",
+	"F:    iterate (it = args.data)(length: 4, advance: 2, unroll: 2) {\n    } else (length: 1, advance: 1, unroll: 1) {\n    }",
+	"F:    iterate (it = args.data, it = args.data)(length: 1, advance: 1, unroll: 1) {\n    }",
+	"F:    iterate (it = args.data)(length: 1, advance: 2, unroll: 1) {\n    }",
+	"F:    iterate (it = args.data)() {\n    }",
+	"F:    iterate (it = args.data)(length: 1, advance: 1, unroll: 1)",
 	"F:    iterate (s)(length: 1, advance: 1, unroll: 1) {\n    }",
 	"F:    iterate (1 = args.data)(length: 1, advance: 1, unroll: 1) {\n    }",
 	"F:    iterate (this.x)(length: 1, advance: 1, unroll: 1) {\n    }",
 	"F:    iterate (s = 1)(length: 1, advance: 1, unroll: 1) {\n    }",
-	"F:    iterate.l (s = args.data)(length: 1, advance: 1, unroll: 1) {\n        break.l\n    }",
-	"F:    iterate (s = args.data)(length: 8, advance: 8, unroll: 256) {\n        this.x = s.peek_u32le()\n    } else (length: 1, advance: 1, unroll: 1) {\n        this.y = s[0] & 7\n    }",
-	"F:    while.outer true {\n        iterate (s = args.data)(length: 2, advance: 1, unroll: 2) {\n            this.a[0] = s[1]\n        }\n        break.outer\n    }.outer",
+	"F:    iterate.l (it = args.data)(length: 1, advance: 1, unroll: 1) {\n        break.l\n    }",
+	"F:    iterate (it = args.data)(length: 8, advance: 8, unroll: 256) {\n        this.x = it.peek_u32le()\n    } else (length: 1, advance: 1, unroll: 1) {\n        this.y = it[0] & 7\n    }",
+	"F:    while.outer true {\n        iterate (it = args.data)(length: 2, advance: 1, unroll: 2) {\n            this.a[0] = it[1]\n        }\n        break.outer\n    }.outer",
 	// choose
 	"F:    choose f = []",
 	"F:    choose = [f]",
@@ -2222,6 +2248,9 @@ func C11D(rc *vk.Rec) {
 			got := e.exec(c, true)
 			if i < 2 {
 				e.sample(c, got)
+			}
+			if os.Getenv("C11_DUMP_EDGES") != "" {
+				fmt.Fprintf(os.Stderr, "c11: edge %d -> %s: %q\n", i, got, ed)
 			}
 		}
 		toks, tail, ok := c11scan([]byte(src))
